@@ -132,6 +132,32 @@ def query(st, n):
     return Q
 
 
+def compare(res, Q, R, prop, tag, desc, case, base_tol, trunc):
+    """every reference value against the queried one; signatures <prop>|<method>|<tag>|..."""
+    for key, rv in R.items():
+        v = Q.get(key)
+        res.n += 1
+        sig = f"{prop}|{key[0]}|{tag}"
+        if isinstance(v, tuple) and v and v[0] == "EXC":
+            if "NotImplemented" in v[1]:
+                res.stats[f"not_implemented:bosonic:{key[0]}"] += 1
+                continue
+            res.violation(sig + "|raises", f"{key} on {desc} raised {v[1]}", dict(case, key=repr(key)))
+            continue
+        x, y = np.asarray(v), np.asarray(rv)
+        if key[0] == "wigner" and x.shape == y.T.shape and x.shape != y.shape:
+            y = y.T
+        if x.shape != y.shape:
+            res.violation(sig + "|shape", f"{key} on {desc} has shape {x.shape}, reference {y.shape}", dict(case, key=repr(key)))
+            continue
+        moments = key[0] in ("mean_photon", "quad_expectation")
+        tol = base_tol + (4 * CREF**2 if moments else 30) * trunc
+        d = float(np.max(np.abs(x - y))) if x.size else 0.0
+        if d > tol * max(1.0, float(np.max(np.abs(y)))):
+            what = "variance" if (x.size == 2 and abs(x.ravel()[0] - y.ravel()[0]) < 1e-6 and moments) else "value"
+            res.violation(sig + f"|{what}", f"{key} on {desc}: got {np.round(x.ravel()[:4].astype(complex), 6).real.tolist()}, dense Fock reference {np.round(y.ravel()[:4], 6).tolist()} (diff {d:.3g})", dict(case, key=repr(key)))
+
+
 def cat_case(cat, n, after, res):
     a, phi, p, rep = cat
     case = {"part": "cat", "cat": [a, phi, p, rep], "n": n, "after": None if after is None else [after[0], list(after[1])]}
@@ -160,28 +186,7 @@ def cat_case(cat, n, after, res):
     desc = f"Catstate(a={a}, phi={phi}, p={p}, '{rep}')" + (f" ; {after[0]}{list(after[1])}" if after else "")
     # the 'real' representation is a documented approximation (quality parameter D = 2, amplitude cutoff 1e-12)
     base_tol = 1e-7 if rep == "complex" else 2e-4
-    for key, rv in R.items():
-        v = Q.get(key)
-        res.n += 1
-        sig = f"C16|{key[0]}|bosonic|cat-{rep}"
-        if isinstance(v, tuple) and v and v[0] == "EXC":
-            if "NotImplemented" in v[1]:
-                res.stats[f"not_implemented:bosonic:{key[0]}"] += 1
-                continue
-            res.violation(sig + "|raises", f"{key} on the bosonic state of {desc} raised {v[1]}", dict(case, key=repr(key)))
-            continue
-        x, y = np.asarray(v), np.asarray(rv)
-        if key[0] == "wigner" and x.shape == y.T.shape and x.shape != y.shape:
-            y = y.T
-        if x.shape != y.shape:
-            res.violation(sig + "|shape", f"{key} on the bosonic state of {desc} has shape {x.shape}, reference {y.shape}", dict(case, key=repr(key)))
-            continue
-        moments = key[0] in ("mean_photon", "quad_expectation")
-        tol = base_tol + (4 * CREF**2 if moments else 30) * trunc
-        d = float(np.max(np.abs(x - y))) if x.size else 0.0
-        if d > tol * max(1.0, float(np.max(np.abs(y)))):
-            what = "variance" if (x.size == 2 and abs(x.ravel()[0] - y.ravel()[0]) < 1e-6 and moments) else "value"
-            res.violation(sig + f"|{what}", f"{key} on the bosonic state of {desc}: got {np.round(x.ravel()[:4].astype(complex), 6).real.tolist()}, dense Fock reference {np.round(y.ravel()[:4], 6).tolist()} (diff {d:.3g})", dict(case, key=repr(key)))
+    compare(res, Q, R, "C16", f"bosonic|cat-{rep}", f"the bosonic state of {desc}", case, base_tol, trunc)
     return True
 
 
